@@ -9,10 +9,11 @@ Require Import Proofs.Fam_mp4_tree Proofs.Fam_mp4_parse Proofs.Fam_mp4_steps Pro
   Proofs.Fam_mp4_existing Proofs.Fam_mp4_main Proofs.Fam_mp4_new Proofs.Fam_mp4_c10.
 Open Scope Z_scope.
 
-(* A strict description of a file (atoms tile their parents at every level; 32-bit / 64-bit / to-EOF size forms) is exactly
-   the tree mutagen's lenient reader builds, for every file: the strict rules determine what MP4Tags.save operates on. *)
+(* A strict description of a file (atoms tile their parents at every level; 32-bit / 64-bit / to-EOF size forms; nesting
+   within the 65 levels mutagen's reader accepts) is exactly the tree mutagen's lenient reader builds, for every file:
+   the strict rules determine what MP4Tags.save operates on. *)
 Theorem C10_strict_tree_is_mutagens_tree f ks :
-  mp4_forest_ok f true ks 0 (zlen f) = true -> mp4_atoms f = Ok ks.
+  mp4_forest_ok f true ks 0 (zlen f) = true -> mp4_forest_height ks <= MP4_MAXDEPTH -> mp4_atoms f = Ok ks.
 Proof. exact (parse_complete f ks). Qed.
 Print Assumptions C10_strict_tree_is_mutagens_tree.
 
@@ -22,8 +23,9 @@ Print Assumptions C10_strict_tree_is_mutagens_tree.
    32-bit, 64-bit, or the untouched to-EOF form) equals the extent of its children -- and that tree is what the next load reads. *)
 Theorem C10_parents_consistent f ilst_data cb f' atoms path it :
   mp4_wf f = true -> mp4_atoms f = Ok atoms -> mp4_path atoms ILST_PATH = Some path -> mp4_tags_clean atoms = true ->
-  ilst_wellformed ilst_data it -> mp4_save f ilst_data cb = Ok f' ->
-  exists atoms', mp4_atoms f' = Ok atoms' /\ mp4_forest_ok f' true atoms' 0 (zlen f') = true.
+  ilst_wellformed ilst_data it -> mp4_height it <= 62 -> mp4_save f ilst_data cb = Ok f' ->
+  exists atoms', mp4_atoms f' = Ok atoms' /\ mp4_forest_ok f' true atoms' 0 (zlen f') = true /\
+                 mp4_forest_height atoms' <= MP4_MAXDEPTH.
 Proof. exact (c10_parents_consistent f ilst_data cb f' atoms path it). Qed.
 Print Assumptions C10_parents_consistent.
 
@@ -32,7 +34,7 @@ Print Assumptions C10_parents_consistent.
    ilst without items named like a table: the hypotheses hold again for the next save. *)
 Theorem C10_wellformed_preserved f ilst_data cb f' atoms path it :
   mp4_wf f = true -> mp4_atoms f = Ok atoms -> mp4_path atoms ILST_PATH = Some path -> mp4_tags_clean atoms = true ->
-  covered atoms -> ilst_wellformed ilst_data it -> ilst_clean it = true ->
+  covered atoms -> ilst_wellformed ilst_data it -> ilst_clean it = true -> mp4_height it <= 62 ->
   mp4_save f ilst_data cb = Ok f' -> mp4_wf f' = true.
 Proof. exact (c10_wf_preserved f ilst_data cb f' atoms path it). Qed.
 Print Assumptions C10_wellformed_preserved.
@@ -127,14 +129,14 @@ Definition ex_check : bool :=
     | Some _ =>
       mp4_tags_clean atoms && covered_b atoms && mp4_forest_ok ex_file true atoms 0 (zlen ex_file) &&
       match mp4_atoms ex_ilst_big with
-      | Ok [it] => mp4_forest_ok ex_ilst_big false [it] 0 (zlen ex_ilst_big) && ilst_clean it
+      | Ok [it] => mp4_forest_ok ex_ilst_big false [it] 0 (zlen ex_ilst_big) && ilst_clean it && (mp4_height it <=? 62)
       | _ => false end &&
       match mp4_save ex_file ex_ilst_big (mp4_cb_const 9) with Ok f' => mp4_wf f' | _ => false end
     | None => false end
   | _ => false end.
 Example C10_ex_hypotheses :
   exists atoms path it f', mp4_atoms ex_file = Ok atoms /\ mp4_path atoms ILST_PATH = Some path /\ mp4_tags_clean atoms = true /\
-    covered atoms /\ ilst_wellformed ex_ilst_big it /\ ilst_clean it = true /\
+    covered atoms /\ ilst_wellformed ex_ilst_big it /\ ilst_clean it = true /\ mp4_height it <= 62 /\
     mp4_save ex_file ex_ilst_big (mp4_cb_const 9) = Ok f' /\ mp4_wf f' = true.
 Proof.
   assert (H : ex_check = true) by (vm_compute; reflexivity). unfold ex_check in H.
@@ -143,7 +145,7 @@ Proof.
   apply andb_true_iff in H. destruct H as [H H3]. apply andb_true_iff in H. destruct H as [H H2].
   apply andb_true_iff in H. destruct H as [H H1']. apply andb_true_iff in H. destruct H as [H1 H1c].
   destruct (mp4_atoms ex_ilst_big) as [[|it [|]]|]; try match goal with X : false = true |- _ => discriminate X end.
-  apply andb_true_iff in H2. destruct H2 as [H2 H2c].
+  apply andb_true_iff in H2. destruct H2 as [H2 H2h]. apply andb_true_iff in H2. destruct H2 as [H2 H2c]. apply Z.leb_le in H2h.
   destruct (mp4_save ex_file ex_ilst_big (mp4_cb_const 9)) as [f'|] eqn:Es; [|discriminate].
   exists atoms, path, it, f'. unfold ilst_wellformed. pose proof (covered_of_b ex_file atoms H1' H1c). tauto.
 Qed.
